@@ -206,6 +206,33 @@ theorem C04_end_to_end_codec_partial (f32Str f64Str : Nat → String) (cast : Na
         readAll (toTarget (.struct n fs)) fields arrs = .ok (vs.map fun v => dvalOf (.struct n fs) (norm (.struct n fs) v))) :=
   C04_end_to_end_partial c O _ n fs vs h0 hfrag hsz hne hwt hsc (Props.C03.codecExt_ok f32Str f64Str cast) hw hm hb hsafe hcap
 
+/-- **C04 end to end, COMPLETE, for traced schemas without Dictionary columns** (`string_dictionary_encoding` and
+`enums_without_data_as_strings` off — the defaults), at the codec models of the external parsers: for every record type of
+the grammar (enums as Unions included) with at least one field that can be walked and mapped within the pass budget,
+`from_type` returns a schema, serializing any batch of well-typed values in scope (within the capacity bound) against it
+succeeds, and reading everything back returns the batch, normalised.  NO residual hypothesis: `Safe`, `Read.physical` and
+`ExtOK` are all derived; what is left are decidable conditions on type × options (`fragE`, `sized`, `walkable`, `mappable`),
+the documented exclusion `inScopeO` (= the driver's `noneAtUnion`; `strOK` is vacuous here: no string-stored enum), the pass
+budget and the explicit capacity bound. -/
+theorem C04_end_to_end_plain (f32Str f64Str : Nat → String) (cast : Nat → Int → Bool → Nat → Option (Bool × Int))
+    (c : Trace.Code) (O : Trace.Options) (n : String) (fs : TFields) (vs : List Val)
+    (h0 : O.overwrites = []) (hd : O.string_dictionary_encoding = false) (he : O.enums_without_data_as_strings = false)
+    (hfrag : fragE (.struct n fs) = true) (hsz : sized (.struct n fs) = true) (hne : fs ≠ .nil)
+    (hwt : ∀ v ∈ vs, wt (.struct n fs) v = true)
+    (hsc : ∀ v ∈ vs, inScopeO (viewOpts O) (.struct n fs) v = true)
+    (hw : Trace.Spec.walkable O "$" (toTraceTy (.struct n fs)) = true)
+    (hm : mappable (viewOpts O) (.struct n fs) = true)
+    (hb : Trace.Spec.passes (toTraceTy (.struct n fs)) ≤ O.from_type_budget)
+    (hcap : ((vs.map (ser (.struct n fs))).map (vsize (Props.C16.codecExt f32Str f64Str cast))).sum ≤ 2147483647) :
+    ∃ fields arrs, Trace.fromType c O (toTraceTy (.struct n fs)) = .ok fields ∧
+      toMarrow (Props.C16.codecExt f32Str f64Str cast) fields (vs.map (ser (.struct n fs))) = .ok arrs ∧
+      readAll (toTarget (.struct n fs)) fields arrs = .ok (vs.map fun v => dvalOf (.struct n fs) (norm (.struct n fs) v)) := by
+  have hft := C04_fromType_ok c O h0 n fs hw hm hb
+  obtain ⟨arrs, htm⟩ := C04_accept_traced c O (Props.C16.codecExt f32Str f64Str cast) n fs vs _ h0 hfrag hsz hwt hsc hft
+    (C04_safeFs_nodict (viewOpts O) hd he fs) hcap
+  exact ⟨_, arrs, hft, htm, C04_roundtrip_bulk_plain_partial c O _ n fs vs _ arrs h0 hd he hfrag hne hwt hsc
+    (Props.C03.codecExt_ok f32Str f64Str cast) hft htm⟩
+
 /-! ### non-vacuity: the batch of `Props/C04.lean` (`exFragRoot`, two records) meets every hypothesis -/
 
 example : ((exBatch.map (ser exFragRoot)).map (vsize {})).sum ≤ 2147483647 := by decide +kernel
@@ -237,6 +264,14 @@ example : ∃ fields arrs, Trace.fromType .fixed exEO (toTraceTy exRoot) = .ok f
       readAll (toTarget exRoot) fields arrs = .ok (exEBatch.map fun v => dvalOf exRoot (norm exRoot v))) :=
   C04_end_to_end_nodict_partial .fixed exEO {} "Root" _ exEBatch rfl rfl rfl (by decide +kernel) (by decide +kernel) (by simp)
     (by decide +kernel) (by decide +kernel) exExtOK (by decide +kernel) (by decide +kernel) (by decide +kernel) (by decide +kernel)
+
+/-- … and completely, with nothing assumed (codec parsers; the float / decimal tables of the codec record play no role for
+this type): `C04_end_to_end_plain` on the enum example -/
+example : ∃ fields arrs, Trace.fromType .fixed exEO (toTraceTy exRoot) = .ok fields ∧
+    toMarrow (Props.C16.codecExt (fun _ => "") (fun _ => "") (fun _ _ _ _ => none)) fields (exEBatch.map (ser exRoot)) = .ok arrs ∧
+    readAll (toTarget exRoot) fields arrs = .ok (exEBatch.map fun v => dvalOf exRoot (norm exRoot v)) :=
+  C04_end_to_end_plain _ _ _ .fixed exEO "Root" _ exEBatch rfl rfl rfl (by decide +kernel) (by decide +kernel) (by simp)
+    (by decide +kernel) (by decide +kernel) (by decide +kernel) (by decide +kernel) (by decide +kernel) (by decide +kernel)
 
 /-- the string form (`enums_without_data_as_strings`): `exSRoot` with a data-less enum and an `Option` of it -/
 example : ∃ fields, Trace.fromType .fixed exSO (toTraceTy exSRoot) = .ok fields ∧
